@@ -26,7 +26,7 @@ func genC15(seed uint64, tier string, idx int) *Plan {
 		if tier == "thorough" && g.r.chance(10) {
 			cm = 20000
 		}
-		g.genUpload(ci, attOpts{maxFiles: 4, maxChunks: 5, chunkMax: cm, dups: g.r.chance(50), markerPct: 15, withhold: g.r.chance(25), grouped: g.r.chance(35)})
+		g.genUpload(ci, attOpts{maxFiles: 4, maxChunks: 5, chunkMax: cm, dups: g.r.chance(50), markerPct: 15, withhold: g.r.chance(25), grouped: g.r.chance(35), second: g.r.chance(12)})
 	}
 	p.Sched = g.sched()
 	p.MaxStep = 200000
@@ -144,13 +144,13 @@ func checkC15(r *Result) []Violation {
 						got = append(got, ivl{u.Off, u.Off + len(u.Body)})
 					}
 				}
-				if miss := missingRanges(len(f.Data), got); len(miss) > 0 {
-					bad("complete_with_bytes_missing", fmt.Sprintf("conn %d: file %q (%d bytes) reported complete although bytes %v had not arrived", ci, f.Name, len(f.Data), miss), e.Step)
+				if miss := missingRanges(f.size(), got); len(miss) > 0 {
+					bad("complete_with_bytes_missing", fmt.Sprintf("conn %d: file %q (%d bytes) reported complete although bytes %v had not arrived", ci, f.Name, f.size(), miss), e.Step)
 					return vs
 				}
 				for _, fs := range a.Files {
 					if fs.Name == string(f.Name) && !bytes.Equal(fs.Body, f.Data) {
-						bad("wrong_content", fmt.Sprintf("conn %d: file %q reported complete with %d bytes that differ from the %d bytes sent", ci, f.Name, len(fs.Body), len(f.Data)), e.Step)
+						bad("wrong_content", fmt.Sprintf("conn %d: file %q reported complete with %d bytes that differ from the %d bytes sent", ci, f.Name, len(fs.Body), f.size()), e.Step)
 						return vs
 					}
 				}
@@ -172,7 +172,7 @@ func checkC15(r *Result) []Violation {
 					got = append(got, ivl{u.Off, u.Off + len(u.Body)})
 				}
 			}
-			if miss := missingRanges(len(f.Data), got); len(miss) > 0 {
+			if miss := missingRanges(f.size(), got); len(miss) > 0 {
 				bad("complete_with_bytes_missing", fmt.Sprintf("conn %d: 0x9212 says file %q is complete although bytes %v were never sent before that 0x1212", ci, f.Name, miss), c.ev.Step)
 				return vs
 			}
